@@ -881,8 +881,34 @@ func c06GenHistory(c *mc.Ctx) *c06Plan {
 	return p
 }
 
-func c06HistoryRun(c *mc.Ctx) {
-	p := c06GenHistory(c)
+func c06HistoryRun(c *mc.Ctx) { c06HistoryPlan(c, c06GenHistory(c)) }
+
+// c06RecordSizes are MI record sizes at the small end, around one-byte CBOR/length boundaries and in the
+// last 33 values below the verifier's limit of 16384 (one record plus the 32-byte proof of the next).
+var c06RecordSizes = []int{2, 3, 255, 256, 16351, 16352, 16353, 16383, 16384}
+
+// c06RecordSizeRun: one signer, every record size of c06RecordSizes, every layout of body lengths
+// {0, 1, rs, rs+1, 2rs+1} over the exchanges.
+func c06RecordSizeRun(c *mc.Ctx) {
+	p := &c06Plan{}
+	p.ver = bundleversion.AllVersions[c.Free(2, "version")]
+	p.nLen = 5
+	p.layout = c.Free(2*p.nLen, "layout")
+	nid := len(c06Idents)
+	if c.Quick() {
+		nid = 2
+	}
+	st := c06Step{ident: c.Free(nid, "signer")}
+	st.rs = c06RecordSizes[c.Free(len(c06RecordSizes), "record size")]
+	st.rt = true
+	if !c.Quick() {
+		st.rt = c.Free(2, "write/read after the signer") == 1
+	}
+	p.steps = []c06Step{st}
+	c06HistoryPlan(c, p)
+}
+
+func c06HistoryPlan(c *mc.Ctx, p *c06Plan) {
 	desc := p.String()
 	if len(p.steps) == 0 {
 		c.Outcome("model: empty history")
@@ -931,7 +957,7 @@ func c06HistoryRun(c *mc.Ctx) {
 		c.Outcome(out)
 	}
 	c.State([]byte(desc))
-	if ok >= 2 || conflict >= 0 || p.steps[0].dur != 0 || p.steps[0].forge != 0 {
+	if ok >= 2 || conflict >= 0 || p.steps[0].dur != 0 || p.steps[0].forge != 0 || p.steps[0].rs > 4096 || (p.steps[0].rs > 1 && p.steps[0].rs < 16) {
 		c.Nontrivial([]byte(desc))
 	}
 }
@@ -1544,6 +1570,10 @@ func init() {
 		Bound: func(string) int { return 1 },
 		Run:   c06BitRun,
 	}
+	recsizes := &mc.Harness{
+		Name: "C06/record-sizes",
+		Run:  c06RecordSizeRun,
+	}
 	edits := &mc.Harness{
 		Name: "C06/edits",
 		Bound: func(tier string) int {
@@ -1557,14 +1587,14 @@ func init() {
 	register(&mc.Property{
 		ID:    "C06",
 		Level: "model_checking",
-		Rule:  "histories: every sequence of 1..2 (quick) / 1..3 (thorough) signers from {A (2-cert chain), B (P-384), A2 (2-cert chain), C} x record sizes {1,16,4096} x write/read before the first signer and after each signer x b1/b2 x 8/10 layouts rotating status {200,404} x payload length {0,1,rs,rs+1[,2rs+1]} over 7 exchanges x 2/3 dates incl. 2^32, with at most one deviating signer (window 7d+1s / 1h / shifted, lying auth-sha256, foreign integrity id), verified at the five boundary times of every window; bitflips: every single bit of the signatures and responses sections of 2 (quick) / 28 (thorough) signed bundles; edits: every listed in-memory edit (quick) / every pair of edits at different sites (thorough) on every covered exchange of 4 / 16 signed bundles, with and without write/read before and after.  A history is non-trivial when it has two completed signers, a refused signer or a deviation; a bit flip when it lands in certificate, authority, sig, signed, header-map or payload bytes; an edit when at least one deviation was taken.",
+		Rule:  "record-sizes: one signer (A, B quick; all four thorough) x b1/b2 x record size {2,3,255,256,16351,16352,16353,16383,16384} x all 10 layouts of status {200,404} x body length {0,1,rs,rs+1,2rs+1} over 7 exchanges, written and re-read after signing (thorough: also not), verified at the five boundary times of the window; histories: every sequence of 1..2 (quick) / 1..3 (thorough) signers from {A (2-cert chain), B (P-384), A2 (2-cert chain), C} x record sizes {1,16,4096} x write/read before the first signer and after each signer x b1/b2 x 8/10 layouts rotating status {200,404} x payload length {0,1,rs,rs+1[,2rs+1]} over 7 exchanges x 2/3 dates incl. 2^32, with at most one deviating signer (window 7d+1s / 1h / shifted, lying auth-sha256, foreign integrity id), verified at the five boundary times of every window; bitflips: every single bit of the signatures and responses sections of 2 (quick) / 28 (thorough) signed bundles; edits: every listed in-memory edit (quick) / every pair of edits at different sites (thorough) on every covered exchange of 4 / 16 signed bundles, with and without write/read before and after.  A history is non-trivial when it has two completed signers, a refused signer or a deviation; a bit flip when it lands in certificate, authority, sig, signed, header-map or payload bytes; an edit when at least one deviation was taken.",
 		Assumptions: []string{
 			"refsig/refcbor (independent signed-subset, header-map, MI and signatures-section serializers written from extensions/signatures-section.md and draft-thomson-http-mice-03) are correct; crypto/ecdsa, crypto/sha256, crypto/x509 are trusted",
 			"ECDSA itself is not explored ((r, n-s) malleability, nonce quality); bitflips/edits use a constant entropy source so that artifacts are reproducible, histories use crypto/rand",
-			"seven exchanges, four fixture identities, three record sizes and one seeded payload pattern stand for all (small-scope hypothesis); payloads up to 8193 bytes",
+			"seven exchanges, four fixture identities, three record sizes in histories/bitflips/edits and twelve in record-sizes, and one seeded payload pattern stand for all (small-scope hypothesis); payloads up to 32769 bytes",
 			"'unaltered headers' means the same field set up to name case and folding of repeated values with ','; the encoded body may differ where mi-sha256 does not authenticate it (record-size field of a single-record body) as long as the decoded payload is the original",
 		},
-		Harnesses: []*mc.Harness{hist, bits, edits},
+		Harnesses: []*mc.Harness{hist, recsizes, bits, edits},
 		Guard: func(s map[string]*mc.Stats) error {
 			h := s["C06/histories"]
 			if h == nil || s["C06/bitflips"] == nil || s["C06/edits"] == nil {
